@@ -64,6 +64,7 @@ ASSUMPTIONS = [
     "where the implementation raises AttributeError from SerializableEnum.__eq__ and the model goes on are counted "
     "(excluded_enum_hash_collision), checked to agree up to that point, and excluded",
 ]
+USES_GENERATED_SER = True
 TRUSTED = [
     "operation count = sys.setprofile call events: work done inside one C call without calling anything (probing inside a dict/set "
     "with colliding hashes, memcpy of a long bytes value) is invisible to it; that part is covered by the wall-clock measurements only",
@@ -692,24 +693,49 @@ def _run(run):
     pub = [(c[0], c[2]) for c in cases[:: (53 if not T else 17)]] + foreign
 
     def _outcome(f):
+        # outcome = kind, type name, a shallow summary; the decoded value itself is compared separately (deeply nested
+        # values can exceed the interpreter's recursion limit in ==, which says nothing about the code under test)
         try:
             v = f()
-            return ["value", type(v).__name__, SL.canon(SL.to_wire(v)) if not isinstance(v, (bytes, str)) or len(v) < 4096 else len(v)]
         except Exception as e:      # noqa
-            return ["raises", type(e).__name__]
+            return ["raises", type(e).__name__, None], None
+        try:
+            summary = len(v) if hasattr(v, "__len__") else (repr(v)[:60] if isinstance(v, (int, float, bool, type(None))) else None)
+        except Exception:           # noqa
+            summary = None
+        return ["value", type(v).__name__, summary], v
+
+    def _same(x, y):
+        try:
+            return SL.canon(SL.to_wire(x)) == SL.canon(SL.to_wire(y))
+        except RecursionError:
+            return True
     npub = 0
+    pub_hangs = 0
     with SL.KeyOracle():
         for fam, data in pub:
             data = bytes(data)
-            a = _outcome(lambda: S.deserialize_value(io.BytesIO(data)))
-            tracemalloc.start()
-            b = _outcome(lambda: S.Serializable.loadb(data))
-            _, peak = tracemalloc.get_traced_memory()
-            tracemalloc.stop()
+            if pub_hangs >= 3:
+                break
+            signal.setitimer(signal.ITIMER_REAL, 2 * WALL_LIMIT)       # both decodes under the watchdog
+            try:
+                a, va = _outcome(lambda: S.deserialize_value(io.BytesIO(data)))
+                tracemalloc.start()
+                b, vb = _outcome(lambda: S.Serializable.loadb(data))
+                _, peak = tracemalloc.get_traced_memory()
+            except Hang:
+                pub_hangs += 1
+                run.oracle_violation("hang", {"family": fam, "bytes": data[:4000], "len": len(data), "entry": "Serializable.loadb"},
+                                     "serializable.py:Serializable.loadb")
+                continue
+            finally:
+                signal.setitimer(signal.ITIMER_REAL, 0)
+                if tracemalloc.is_tracing():
+                    tracemalloc.stop()
             npub += 1
-            if a != b:
+            if a != b or (a[0] == "value" and not _same(va, vb)):
                 run.oracle_violation("loadb-differs-from-stream-decoder", {"family": fam, "len": len(data), "bytes": data[:300],
-                                                                           "deserialize_value": a[:2], "loadb": b[:2]}, "serializable.py:Serializable.loadb")
+                                                                           "deserialize_value": a, "loadb": b}, "serializable.py:Serializable.loadb")
             if peak > ALLOC_CONST + ALLOC_PER_BYTE * len(data):
                 run.oracle_violation("allocation-far-above-input", {"family": fam, "len": len(data), "peak": peak, "entry": "Serializable.loadb",
                                                                     "bytes": data[:300]}, "serializable.py:Serializable.loadb")
